@@ -5,7 +5,7 @@ from sa import dsl, guards as G
 from sa.flow import GuardMap, Provenance
 from sa.hwdb import HwDb
 from sa.pytexts import accumulate_paths
-from sa.repo import AnchorError, call_name, calls_in, dotted, norm, walk_no_nested, kwarg
+from sa.repo import ordk, AnchorError, call_name, calls_in, dotted, norm, walk_no_nested, kwarg
 from rules import c07
 
 IMPLICIT = "annet.implicit"
@@ -59,8 +59,8 @@ def r1(c):
     same = all(G.equivalent(fs[0], f) for f in fs[1:])
     ok = same and any(a == "ctx.add_implicit" for a in G.atoms(fs[0]))
     c.check("C17.R1", ok, repo.loc(g, found["old"]), "_old_new_per_device/one-guard", f"completions run under {[G.show(f) for f in fs]}; expected one common guard containing ctx.add_implicit", key_text="one-guard")
-    first_acl = min([x.lineno for x in calls_in(fn) if call_name(x).split(".")[-1] == "apply_acl"] or [10 ** 9])
-    ok = all(st.lineno < first_acl for st in found.values())
+    first_acl = min([ordk(x) for x in calls_in(fn) if call_name(x).split(".")[-1] == "apply_acl"] or [(9, 0, 0)])
+    ok = all(ordk(st) < first_acl for st in found.values())
     c.check("C17.R1", ok, repo.loc(g, fn), "_old_new_per_device/before-acl", "a tree is completed after it was filtered by the ACL", key_text="before-acl")
 
 
